@@ -161,6 +161,9 @@ def finite_mode_job(job):
 
 def run(ctx):
     quick = ctx.tier == "quick"
+    # unbounded counterpart of what TLC checks for N <= 8 (specs/InfluenceCover.tla, TLA+ proof system): for every r, K, A the
+    # documented cover keeps exactly 0..r-1 (additional time infinite), 0..min(r-1, K) (none), nothing beyond K + A (finite)
+    core.tlaps(ctx, "InfluenceCover", ("Min2(r - K, 1 + A)", "Min2(r - K, 2 + A)"))
     fjobs = [(ctx.seed + i, nm, t, lind, meth) for i, (nm, t, lind) in enumerate(
         [(1, 0.0, False), (2, 0.7, False), (1, 0.5, True), (3, 0.0, True)] if quick else
         [(1, 0.0, False), (2, 0.7, False), (1, 0.5, True), (3, 0.0, True), (2, 0.0, True), (3, 0.3, False), (1, 2.0, True)])
